@@ -30,7 +30,8 @@ Ns(m) == "urn:" \o m
 \* module it belongs to); what its module imports is not visible in it, and what it imports is not visible
 \* in its module.  s2 binds p differently from m2 (m4 / m3), imports r which m2 does not, and m2 imports t
 \* which s2 does not.
-Cfgs == {"swap", "same", "two", "sub"}
+\* Configuration "words": the prefixes are spelled like an XPath function (count) and operators (div, and).
+Cfgs == {"swap", "same", "two", "sub", "words"}
 Present(c) == IF c = "two" THEN {"m1", "m2"} ELSE IF c = "sub" THEN Mods \cup {"m4"} ELSE Mods
 SubUnits(c) == IF c = "sub" THEN {"s2"} ELSE {}
 Units(c) == Present(c) \cup SubUnits(c)
@@ -40,10 +41,12 @@ IsSub(u) == u = "s2"
 Own(c, m) == CASE c = "swap" -> (CASE m = "m1" -> "o" [] m = "m2" -> "q" [] OTHER -> "p")
                [] c = "same" -> (CASE m = "m1" -> "p" [] m = "m2" -> "p" [] OTHER -> "q")
                [] c = "sub"  -> (CASE m = "m1" -> "o" [] m \in {"m2", "s2"} -> "q" [] OTHER -> "p")
+               [] c = "words" -> (CASE m = "m1" -> "and" [] m = "m2" -> "div" [] OTHER -> "count")
                [] OTHER -> "a"
 ImportsOf(c, m) ==      \* set of <<prefix, module>>
   CASE c = "swap" -> (CASE m = "m1" -> {<<"p", "m2">>, <<"q", "m3">>} [] m = "m2" -> {<<"p", "m3">>} [] OTHER -> {})
     [] c = "same" -> (CASE m = "m1" -> {<<"q", "m2">>, <<"r", "m3">>} [] m = "m2" -> {<<"q", "m3">>} [] OTHER -> {})
+    [] c = "words" -> (CASE m = "m1" -> {<<"count", "m2">>, <<"div", "m3">>} [] m = "m2" -> {<<"count", "m3">>} [] OTHER -> {})
     [] c = "sub"  -> (CASE m = "m1" -> {<<"p", "m2">>, <<"q", "m3">>} [] m = "m2" -> {<<"p", "m3">>, <<"t", "m4">>}
                         [] m = "s2" -> {<<"p", "m4">>, <<"r", "m3">>} [] OTHER -> {})
     [] OTHER -> (CASE m = "m1" -> {<<"b", "m2">>} [] OTHER -> {})
@@ -121,17 +124,26 @@ Observable(s) == s.place \notin {"grp-unused", "typedef-unused"}
 \* ------------------------------------------------------------- expressions
 Lit(v) == [t |-> "s", v |-> v, slot |-> 0]
 Nm(slot, l) == [t |-> "n", v |-> l, slot |-> slot]
+\* an UNPREFIXED name test whose local name is spelled exactly like the prefix chosen for the slot ("n0" if the slot has
+\* none): a prefix and a node name are different things even when they are spelled alike (a container bgp and an import
+\* prefix bgp, an unknown prefix spelled like an earlier step, a prefix spelled like a function or operator name)
+Ln(slot) == [t |-> "ln", v |-> "n0", slot |-> slot]
 AcceptPool(kind) ==
   IF kind = "path"
   THEN << <<Lit("../"), Nm(1, "n1")>>,
           <<Lit("../../"), Nm(1, "n1"), Lit("/"), Nm(2, "n2")>>,
           <<Lit("/"), Nm(1, "n1"), Lit("/"), Nm(2, "n2")>>,
-          <<Lit("/"), Nm(1, "n1"), Lit("["), Nm(2, "k"), Lit(" = current()/../"), Nm(1, "r"), Lit("]/"), Nm(2, "n2")>> >>
+          <<Lit("/"), Nm(1, "n1"), Lit("["), Nm(2, "k"), Lit(" = current()/../"), Nm(1, "r"), Lit("]/"), Nm(2, "n2")>>,
+          <<Lit("../"), Ln(1), Lit("/"), Nm(1, "n1")>>,
+          <<Lit("/"), Nm(1, "n1"), Lit("/"), Ln(1), Lit("/"), Nm(2, "n2"), Lit("/"), Ln(2)>> >>
   ELSE << <<Lit("../"), Nm(1, "n1"), Lit(" = 'v'")>>,
           <<Lit("count(/"), Nm(1, "n1"), Lit("/"), Nm(2, "n2"), Lit(") > 0")>>,
           <<Nm(1, "n1"), Lit(" or "), Nm(2, "n2")>>,
           <<Lit("not(../"), Nm(1, "n1"), Lit("["), Nm(2, "k"), Lit(" = 'x'])")>>,
-          <<Lit("current()/../"), Nm(2, "n1"), Lit(" != ''")>> >>
+          <<Lit("current()/../"), Nm(2, "n1"), Lit(" != ''")>>,
+          <<Lit("../"), Ln(1), Lit("/"), Nm(1, "as"), Lit(" > 0")>>,
+          <<Lit("../"), Nm(1, "peer"), Lit(" or ../"), Ln(1)>>,
+          <<Lit("count(../"), Ln(2), Lit("/"), Nm(1, "n1"), Lit(") = count(/"), Nm(2, "n2"), Lit("/"), Ln(1), Lit(")")>> >>
 \* syntactically invalid arguments (clearly so: unbalanced brackets, two names in a row, unknown
 \* function, dangling operator, unterminated literal; for a path also anything that is not a path)
 RejectPool(kind) ==
@@ -143,20 +155,23 @@ RejectPool(kind) ==
 NAccept(kind) == Len(AcceptPool(kind))
 Expr(s) == IF s.e <= NAccept(s.kind) THEN AcceptPool(s.kind)[s.e] ELSE RejectPool(s.kind)[s.e - NAccept(s.kind)]
 SyntaxOK(s) == s.e <= NAccept(s.kind)
-Slots(x) == {x[i].slot : i \in {j \in 1..Len(x) : x[j].t = "n"}}
+Slots(x) == {x[i].slot : i \in {j \in 1..Len(x) : x[j].t \in {"n", "ln"}}}      \* slots that shape the text
+PSlots(x) == {x[i].slot : i \in {j \in 1..Len(x) : x[j].t = "n"}}              \* slots used as a PREFIX
 RECURSIVE Text(_, _)
 Text(x, pf) == IF x = << >> THEN ""
-               ELSE (IF x[1].t = "s" THEN x[1].v ELSE IF pf[x[1].slot] = "" THEN x[1].v ELSE pf[x[1].slot] \o ":" \o x[1].v)
+               ELSE (IF x[1].t = "s" THEN x[1].v
+                     ELSE IF x[1].t = "ln" THEN (IF pf[x[1].slot] = "" THEN x[1].v ELSE pf[x[1].slot])
+                     ELSE IF pf[x[1].slot] = "" THEN x[1].v ELSE pf[x[1].slot] \o ":" \o x[1].v)
                     \o Text(Tail(x), pf)
-NameToks(x) == SelectSeq(x, LAMBDA k : k.t = "n")
+NameToks(x) == SelectSeq(x, LAMBDA k : k.t \in {"n", "ln"})
 
 \* ------------------------------------------------------------- meaning
-UnknownPrefix(c, s) == \E i \in Slots(Expr(s)) : s.pf[i] # "" /\ ~Known(c, s.T, s.pf[i])
+UnknownPrefix(c, s) == \E i \in PSlots(Expr(s)) : s.pf[i] # "" /\ ~Known(c, s.T, s.pf[i])
 Bad(c, s) == ~SyntaxOK(s) \/ UnknownPrefix(c, s)
 \* namespace of the i-th name test ("*" = not judged)
-NameNs(c, s, k) == IF s.pf[k.slot] # "" THEN (IF Known(c, s.T, s.pf[k.slot]) THEN Ns(Lookup(c, s.T, s.pf[k.slot])) ELSE "?")
+NameNs(c, s, k) == IF k.t = "n" /\ s.pf[k.slot] # "" THEN (IF Known(c, s.T, s.pf[k.slot]) THEN Ns(Lookup(c, s.T, s.pf[k.slot])) ELSE "?")
                    ELSE IF CurMod(s) = "*" THEN "*" ELSE Ns(ModOf(CurMod(s)))
-Names(c, s) == LET x == NameToks(Expr(s)) IN [i \in 1..Len(x) |-> [ns |-> NameNs(c, s, x[i]), l |-> x[i].v]]
+Names(c, s) == LET x == NameToks(Expr(s)) IN [i \in 1..Len(x) |-> [ns |-> NameNs(c, s, x[i]), l |-> IF x[i].t = "ln" /\ s.pf[x[i].slot] # "" THEN s.pf[x[i].slot] ELSE x[i].v]]
 \* an instance: a configuration and a sequence of statements
 Verdict(I) == IF \E i \in 1..Len(I.stmts) : Bad(I.cfg, I.stmts[i]) THEN "error" ELSE "ok"
 BadStmts(I) == {i \in 1..Len(I.stmts) : Bad(I.cfg, I.stmts[i])}
